@@ -656,8 +656,8 @@ type c31Job struct {
 	err   error
 	// bytes of the result right after its assembly returned
 	snapHeaders, snapMerkle, snapCoinbaseProof, snapTx []byte
-	snapPreimage                                        [32]byte
-	snapIndex                                           uint
+	snapPreimage                                       [32]byte
+	snapIndex                                          uint
 }
 
 func (j *c31Job) run() {
